@@ -36,7 +36,7 @@ TRUSTED_BASE = L.TRUSTED_COMMON + [
     'MultipleJoin descriptors on column a. RelatedJoin/SingleJoin/SQL*Join accessors build their results with the same otherClass.get / '
     'select iteration and are exercised by C13 and by the relation stream below',
     'relation stream (oracle only, no Coq model): real ForeignKey (by id and by refColumn), MultipleJoin, SingleJoin and RelatedJoin '
-    'descriptors on four classes, run on the default connection, on an explicit second connection (decoy rows with the same ids in the '
+    'descriptors, alternate-id (byX) and unique-index lookups on four classes, run on the default connection, on an explicit second connection (decoy rows with the same ids in the '
     'default one) and through a Transaction; judged by object identity against what the application holds and by "the object handed out '
     'is bound to the connection in use"',
 ]
@@ -104,7 +104,7 @@ _rconn = {}
 def rclasses():
     global _rcls
     if _rcls is None:
-        from sqlobject import SQLObject, IntCol, ForeignKey, MultipleJoin, RelatedJoin, SingleJoin
+        from sqlobject import SQLObject, IntCol, ForeignKey, MultipleJoin, RelatedJoin, SingleJoin, DatabaseIndex
 
         class VcTeam(SQLObject):
             code = IntCol(alternateID=True)
@@ -124,6 +124,7 @@ def rclasses():
         class VcTag(SQLObject):
             u = IntCol(alternateID=True)
             players = RelatedJoin('VcPlayer')
+            uIdx = DatabaseIndex('u', unique=True)
 
         class VcCaptain(SQLObject):
             class sqlmeta:
@@ -137,6 +138,7 @@ def rclasses():
 def gen_rel(rng):
     mode = rng.choice(['default', 'other', 'other', 'txn'])
     ops, nslots, live, nid, nu = [], 0, {0: [], 1: [], 2: [], 3: []}, {0: 0, 1: 0, 2: 0, 3: 0}, [0]
+    keys = {0: [], 1: [], 2: [], 3: []}          # alternate-id values given to the rows of each class
     for _ in range(rng.randint(4, 30)):
         r = rng.random()
         k = rng.choice([0, 0, 1, 1, 1, 2, 3])
@@ -151,6 +153,7 @@ def gen_rel(rng):
             if k == 1 and nid[0] and rng.random() < 0.7:
                 f['home'] = 10 * rng.randint(1, nid[0])             # VcTeam.code of team i is 10*i
             ops.append(['rcreate', k, nu[0], f])
+            keys[k].append(f['code'] if k == 0 else nu[0])
             nid[k] += 1
             live[k].append(nslots)
             nslots += 1
@@ -158,8 +161,14 @@ def gen_rel(rng):
             ops.append(['rget', k, rng.randint(1, nid[k])])
             live[k].append(nslots)
             nslots += 1
-        elif r < 0.48:
+        elif r < 0.44:
             ops.append(['rselect', k])
+        elif r < 0.50 and keys[k]:
+            # alternate-id lookup (byCode / byU) and, for the class that declares one, the unique-index lookup; sometimes an absent key
+            v = rng.choice(keys[k]) if rng.random() < 0.9 else 7777
+            ops.append(['rindex' if k == 2 and rng.random() < 0.5 else 'ralt', k, v])
+            live[k].append(nslots)
+            nslots += 1
         elif r < 0.66:
             cand = [(kk, h) for kk, h in allive if kk in RATTRS]
             if not cand:
@@ -238,7 +247,14 @@ def run_rel(case):
         return None
 
     def desc(o):
-        return [cls.index(type(o)), o.id, token(o), o._connection is use]
+        # ... and what the row of that id holds on the connection in use: its alternate-id column, against the attribute
+        attr = 'code' if type(o) is cls[0] else 'u'
+        raw = use.queryOne('SELECT %s FROM %s WHERE id = %d' % (attr, type(o).sqlmeta.table, o.id))
+        try:
+            shown = getattr(o, attr)
+        except Exception as e:   # noqa
+            shown = 'raised ' + type(e).__name__
+        return [cls.index(type(o)), o.id, token(o), o._connection is use, 'gone' if raw is None else raw[0], shown]
     try:
         for op in case['ops']:
             t = op[0]
@@ -252,6 +268,15 @@ def run_rel(case):
                 elif t == 'rget':
                     slots.append(None)
                     o = cls[op[1]].get(op[2], **kw)
+                    res = [desc(o)]
+                    slots[-1] = o
+                elif t in ('ralt', 'rindex'):
+                    slots.append(None)
+                    C = cls[op[1]]
+                    if t == 'rindex':
+                        o = C.uIdx.get(op[2], **kw)
+                    else:
+                        o = (C.byCode if op[1] == 0 else C.byU)(op[2], **kw)
                     res = [desc(o)]
                     slots[-1] = o
                 elif t == 'rselect':
@@ -311,11 +336,18 @@ def run_rel(case):
 def rel_failures(case, obs):
     prev = []
     for n, (op, st) in enumerate(zip(case['ops'], obs['rsteps'])):
-        for k, i, tok, bound in st['res']:
+        for k, i, tok, bound, stored_key, shown_key in st['res']:
             held = [j for j, v in enumerate(prev) if v is not None and v[0] == k and v[1] == i]
             why = None
             if not bound:
                 why = 'an instance of %s/%d bound to ANOTHER connection was handed out' % (RCLASSES[k], i)
+            elif stored_key == 'gone':
+                why = 'an instance of %s/%d was handed out although the connection in use has no such row' % (RCLASSES[k], i)
+            elif stored_key != shown_key:
+                why = 'the instance %s/%d handed out shows the key %r, its row on the connection in use holds %r' % (
+                    RCLASSES[k], i, shown_key, stored_key)
+            elif op[0] in ('ralt', 'rindex') and stored_key != op[2]:
+                why = 'the lookup of key %r handed out %s/%d whose row holds %r' % (op[2], RCLASSES[k], i, stored_key)
             elif held and tok not in held:
                 why = 'a second instance of row %s/%d was handed out while the application still holds one (slots %s)' % (RCLASSES[k], i, held)
             if why:
@@ -323,7 +355,8 @@ def rel_failures(case, obs):
         if st.get('stored') and st['stored'][0] != 'gone' and st['stored'][0] != st['stored'][1] and not st['exc']:
             yield {'step': n, 'op': op, 'what': 'the foreign-key attribute handed out the object of id %r although the row stores %r' % (
                 st['stored'][1], st['stored'][0]), 'mode': case['mode'], 'cache': case['cfg']['cache'], 'rel': True}
-        if st['exc'] and not (op[0] in ('rget', 'rfk') and st['exc'] == 'SQLObjectNotFound'):
+        if st['exc'] and not (op[0] in ('rget', 'rfk') and st['exc'] == 'SQLObjectNotFound') and not (
+                op[0] in ('ralt', 'rindex') and op[2] == 7777 and st['exc'] == 'SQLObjectNotFound'):
             yield {'step': n, 'op': op, 'what': 'operation raised %s' % st['exc'], 'mode': case['mode'], 'rel': True}
         prev = st['held']
 
@@ -409,7 +442,7 @@ def nontrivial(case, obs):
     if case.get('rel'):
         prev = []
         for st in obs['rsteps']:
-            if any(any(v is not None and v[0] == k and v[1] == i for v in prev) for k, i, _t, _b in st['res']):
+            if any(any(v is not None and v[0] == k and v[1] == i for v in prev) for k, i, *_rest in st['res']):
                 return True
             prev = st['held']
         return False
